@@ -5512,6 +5512,8 @@ tsk_tree_init(tsk_tree_t *self, const tsk_treeseq_t *tree_sequence, tsk_flags_t 
     if (ret != 0) {
         goto out;
     }
+    /* tsk_tree_clear reads the children of sample nodes */
+    tsk_memset(self->left_child, 0xff, N * sizeof(*self->left_child));
     ret = tsk_tree_clear(self);
 out:
     return ret;
@@ -6614,7 +6616,7 @@ tsk_tree_clear(tsk_tree_t *self)
 {
     int ret = 0;
     tsk_size_t j;
-    tsk_id_t u;
+    tsk_id_t u, v;
     const tsk_size_t N = self->num_nodes + 1;
     const tsk_size_t num_samples = self->tree_sequence->num_samples;
     const bool sample_counts = !(self->options & TSK_NO_SAMPLE_COUNTS);
@@ -6628,6 +6630,23 @@ tsk_tree_clear(tsk_tree_t *self)
     self->sites = NULL;
     self->sites_length = 0;
     tsk_tree_position_set_null(&self->tree_pos);
+    if (sample_counts) {
+        /* Samples may be internal nodes, in which case their tracked sample
+         * counts include their tracked descendants. Reduce the count of each
+         * sample to its own contribution while the topology is still intact,
+         * using num_samples (which is reset below) as temporary storage. */
+        for (j = 0; j < num_samples; j++) {
+            u = self->samples[j];
+            self->num_samples[u] = self->num_tracked_samples[u];
+            for (v = self->left_child[u]; v != TSK_NULL; v = self->right_sib[v]) {
+                self->num_samples[u] -= self->num_tracked_samples[v];
+            }
+        }
+        for (j = 0; j < num_samples; j++) {
+            u = self->samples[j];
+            self->num_tracked_samples[u] = self->num_samples[u];
+        }
+    }
     /* TODO we should profile this method to see if just doing a single loop over
      * the nodes would be more efficient than multiple memsets.
      */
